@@ -4,7 +4,7 @@
 From Coq Require Import List NArith Bool Arith.
 From SV Require Import model.Graph model.GraphInv.
 From SV Require Import lib.Bytes lib.SqlExpr gen.GenSched model.Sched proofs.SchedProofs proofs.SchedRevert proofs.SchedReconcile.
-From SV Require Import model.SchedGraph proofs.SchedGraphCpl proofs.SchedGraphMachine.
+From SV Require Import model.SchedGraph proofs.SchedGraphCpl proofs.SchedGraphSim proofs.SchedGraphMachine.
 Import ListNotations.
 Open Scope N_scope.
 
@@ -141,8 +141,8 @@ Qed.
    repository has -- flags stale TARGET values, the creators of exact targets and the producers of regular outputs
    under directory targets.  Together they keep the flag invariant from ANY snapshot: every step whose target
    elevation the new tables change is flagged, so the first metadata pass recomputes it.  Hypotheses (decidable,
-   evaluated on every real snapshot at a reconcile): attached files have distinct labels; an output is created by
-   its producer and is not in a static state. *)
+   evaluated on every real snapshot at a reconcile): attached files have distinct labels; an attached output is
+   created by its producer and is not in a static state. *)
 Theorem C11_target_change_keeps_flag_invariant :
   forall g ts tds thr, WF g -> LabelsUnique g -> OutInv g -> FlagInv g ->
     FlagInv (reconcile (set_targets g ts tds thr)).
@@ -158,6 +158,16 @@ Theorem C11_reconcile_parts_necessary :
     ~ FlagInv_need (reconcile_with parts (set_targets g ts tds thr)).
 Proof. exact reconcile_parts_necessary. Qed.
 
+(* the two hypotheses are not extra assumptions on real histories: they follow from C09's invariant (J) for any
+   snapshot coupled to the stored workflow (attached file rows have distinct labels; an attached output has a
+   creator, which is its producer, and is in an output state) *)
+Theorem C11_reconcile_hypotheses_follow_from_invariant :
+  forall idf, (forall a b, idf a = idf b -> a = b) ->
+  forall s g, J s -> coupled idf s g -> LabelsUnique g /\ OutInv g.
+Proof.
+  intros idf Hinj s g HJ C. split; [apply (LabelsUnique_cpl idf s g HJ C) | apply (OutInv_cpl idf Hinj s g HJ C)].
+Qed.
+
 Theorem C11_reconcile_hypotheses_decidable :
   forall g, fwf_b g = true -> labels_unique_b g = true -> outinv_b g = true -> LabelsUnique g /\ OutInv g.
 Proof. intros g A B C. split; [apply labels_unique_b_sound; assumption | apply outinv_b_sound; exact C]. Qed.
@@ -170,8 +180,8 @@ Proof. intros g A B C. split; [apply labels_unique_b_sound; assumption | apply o
    free resources is dispatched iff it is needed.  Partial in the sense of
    C10_cached_equals_spec_at_every_decision_partial (certificates for node-creating transactions).  A new director
    run with OTHER TARGETS (Scheduler.initialize + reconcile_targets) is a step of the machine too (reach_targets:
-   FlagInv proved, C11_target_change_keeps_flag_invariant; its two hypotheses on the snapshot are evaluated on
-   every real reconcile), so "resumed with a different target set than the previous run" is covered. *)
+   FlagInv proved, C11_target_change_keeps_flag_invariant; its two hypotheses follow from the invariant:
+   C11_reconcile_hypotheses_follow_from_invariant), so "resumed with a different target set than the previous run" is covered. *)
 Theorem C11_executed_iff_needed_at_every_decision_partial :
   forall idf, (forall a b, idf a = idf b -> a = b) ->
   forall s g, reach idf s g ->
